@@ -38,6 +38,7 @@ type event struct {
 	slot  int
 	excl  bool
 	owner *Thread
+	key   string // evGate: the key of the backend request
 }
 
 // Thread is one client connection.
@@ -84,6 +85,10 @@ type Rig struct {
 	Grants     []Grant
 	Events     []Grant  // acquisitions and releases in the order they happened
 	MultiHeld  string   // set when a connection was granted a key lock while holding another one
+	// SplitKey: set when backend requests on one key were made under different key locks (or
+	// under none): whatever the striping function is, one key must have one lock
+	SplitKey string
+	keySlot  map[string]int
 	ModelSched [][2]int // model-level schedule: (thread, panic 0/1)
 	LockSlot   uint32
 	Err        string
@@ -156,6 +161,14 @@ func toCommon(r stack.Req) (common.Request, common.RequestType) {
 			g.Quiet = append(g.Quiet, it.Quiet)
 		}
 		return g, common.RequestGet
+	case "gete":
+		g := common.GetRequest{NoopOpaque: r.NoopOpq, NoopEnd: r.NoopEnd}
+		for _, it := range r.Items {
+			g.Keys = append(g.Keys, it.Key)
+			g.Opaques = append(g.Opaques, it.Opaque)
+			g.Quiet = append(g.Quiet, it.Quiet)
+		}
+		return g, common.RequestGetE
 	case "noop":
 		return common.NoopRequest{Opaque: r.Opaque}, common.RequestNoop
 	case "version":
@@ -314,7 +327,7 @@ func New(threads []*Thread, locking, multi bool) *Rig {
 			if t == nil {
 				return
 			}
-			r.events <- event{kind: evGate, owner: t}
+			r.events <- event{kind: evGate, owner: t, key: q.Key}
 			<-t.resume
 		}
 	}
@@ -458,6 +471,26 @@ func (r *Rig) Step(id int) bool {
 				}
 				r.Events = append(r.Events, Grant{id, ev.slot, ev.excl, true})
 				continue
+			}
+			if ev.kind == evGate && r.Locking && ev.key != "" && r.SplitKey == "" {
+				held := -1
+				for sl, h := range r.excl {
+					if h == ev.owner {
+						held = sl
+					}
+				}
+				for sl, m := range r.shared {
+					if m[ev.owner] {
+						held = sl
+					}
+				}
+				if r.keySlot == nil {
+					r.keySlot = map[string]int{}
+				}
+				if prev, ok := r.keySlot[ev.key]; ok && prev != held || held < 0 {
+					r.SplitKey = fmt.Sprintf("thread %d sent a backend request for key %q while holding lock %d; an earlier backend request for that key was made under lock %d (-1 = no lock)", ev.owner.ID, ev.key, held, r.keySlot[ev.key])
+				}
+				r.keySlot[ev.key] = held
 			}
 			ev.owner.pending = ev
 			if ev.kind == evFinished {
